@@ -107,6 +107,23 @@ fn facts(repo: &tough::Repository, names: &[String], it: &mut Intern) -> Value {
                   "timestamp": it.id(&serde_json::to_value(&repo.timestamp().signed._extra).unwrap())}})
 }
 
+/// the files served from memory, written below `dir` (metadata under `dir/m`)
+fn dump(mem: &Mem, dir: &std::path::Path) {
+    for (path, resp) in mem.files.lock().unwrap().iter() {
+        if let vworld::mem::Resp::Stream(chunks) = resp {
+            let mut bytes = Vec::new();
+            for c in chunks { if let vworld::mem::Chunk::Data(b) = c { bytes.extend_from_slice(b); } }
+            let p = dir.join(path.trim_start_matches('/'));
+            std::fs::create_dir_all(p.parent().unwrap()).unwrap();
+            std::fs::write(p, bytes).unwrap();
+        }
+    }
+}
+
+fn tuftool() -> std::path::PathBuf {
+    std::path::PathBuf::from(std::env::var("TUFTOOL").unwrap_or_else(|_| "/repo/target/debug/tuftool".into()))
+}
+
 #[tokio::main(flavor = "current_thread")]
 async fn main() {
     let mut args = parse_args();
@@ -123,7 +140,7 @@ async fn main() {
     out.only = only;
     let n = if thorough { 2000 } else { 150 };
     for i in 0..n {
-        if !out.wants_next() { out.skip(); continue; }
+        if !out.wants_any_of_next(2) { out.skip(); out.skip(); continue; }
         let mut r = Rng::new(args.seed, i);
         let mut tn: Vec<&str> = TARGET_NAMES.to_vec();
         r.shuffle(&mut tn);
@@ -168,10 +185,13 @@ async fn main() {
         let tbase = url::Url::parse("file:///t/").unwrap();
         let old = match tough::RepositoryLoader::new(&root_bytes, base.clone(), tbase.clone()).transport(mem.clone()).load().await {
             Ok(r) => r,
-            Err(e) => { out.case_nt("source-does-not-load", json!({"names": names}), json!({"load": err_tag(&e)}), false); continue; }
+            Err(e) => { out.case_nt("source-does-not-load", json!({"names": names}), json!({"load": err_tag(&e)}), false); out.skip(); continue; }
         };
         let mut it = Intern(Vec::new());
         let before = facts(&old, &names, &mut it);
+        // the source as a directory, for the command line tool
+        let src = work.path().join("src");
+        dump(&mem, &src);
         // the update
         let added: Vec<usize> = (k..k + 2).filter(|_| r.chance(1, 2)).collect();
         let newv = [r.range(100, 200), r.range(100, 200), r.range(100, 200)];
@@ -205,17 +225,46 @@ async fn main() {
         let class = format!("{}{}", if roles.is_empty() { "flat" } else { "tree" }, if added.is_empty() { "-bump" } else { "-add" });
         let signed = match result {
             Ok(s) => s,
-            Err(e) => { out.case_nt(&class, input, json!({"update": e}), true); continue; }
+            Err(e) => { out.case_nt(&class, input, json!({"update": e}), true); out.skip(); continue; }
         };
         let outdir = work.path().join("out");
-        if let Err(e) = signed.write(&outdir).await { out.case_nt(&class, input, json!({"update": format!("write: {e}")}), true); continue; }
+        if let Err(e) = signed.write(&outdir).await { out.case_nt(&class, input, json!({"update": format!("write: {e}")}), true); out.skip(); continue; }
         let murl = url::Url::from_directory_path(&outdir).unwrap();
         let reload = tough::RepositoryLoader::new(&root_bytes, murl.clone(), murl).load().await;
         let imp = match reload {
             Ok(newrepo) => json!({"update": "ok", "reload": "ok", "after": facts(&newrepo, &names, &mut it)}),
             Err(e) => json!({"update": "ok", "reload": err_tag(&e)}),
         };
-        out.case_nt(&class, input, imp, true);
+        out.case_nt(&class, input.clone(), imp, true);
+        // ---- the same update (versions and expirations only) through `tuftool update` (quick: every third repository)
+        if !(thorough || i % 3 == 0) { out.skip(); continue; }
+        let cli_out = work.path().join("cli");
+        let exp_s = new_exp.format("%Y-%m-%dT%H:%M:%SZ").to_string();
+        let mut cmd = std::process::Command::new(tuftool());
+        cmd.arg("update").arg("--root").arg(&root_path);
+        for i in [TGT_KEY, SNAP_KEY, TS_KEY] { cmd.arg("--key").arg(&pool.all()[i].file); }
+        cmd.arg("--metadata-url").arg(url::Url::from_directory_path(src.join("m")).unwrap().as_str())
+            .arg("--outdir").arg(&cli_out)
+            .arg("--targets-version").arg(newv[0].to_string()).arg("--targets-expires").arg(&exp_s)
+            .arg("--snapshot-version").arg(newv[1].to_string()).arg("--snapshot-expires").arg(&exp_s)
+            .arg("--timestamp-version").arg(newv[2].to_string()).arg("--timestamp-expires").arg(&exp_s);
+        let res = cmd.output();
+        let mut input_cli = input;
+        input_cli["added"] = json!([]);
+        input_cli["added_facts"] = json!([]);
+        input_cli["via"] = json!("tuftool update");
+        let imp_cli = match res {
+            Ok(o) if o.status.success() => {
+                let murl = url::Url::from_directory_path(cli_out.join("metadata")).unwrap();
+                match tough::RepositoryLoader::new(&root_bytes, murl.clone(), murl).load().await {
+                    Ok(newrepo) => json!({"update": "ok", "reload": "ok", "after": facts(&newrepo, &names, &mut it)}),
+                    Err(e) => json!({"update": "ok", "reload": err_tag(&e)}),
+                }
+            }
+            Ok(o) => json!({"update": format!("tuftool update failed: {}", String::from_utf8_lossy(&o.stderr).chars().take(300).collect::<String>())}),
+            Err(e) => json!({"update": format!("tuftool could not be run: {e}")}),
+        };
+        out.case_nt(&format!("{}-cli", if roles.is_empty() { "flat" } else { "tree" }), input_cli, imp_cli, true);
     }
     out.finish();
 }
